@@ -4,6 +4,7 @@ package checks
 
 import (
 	"fmt"
+	"github.com/ovn-org/libovsdb/ovsdb"
 	"regexp"
 	"sort"
 	"strings"
@@ -136,6 +137,11 @@ func runC04(r *ev.Run) {
 			d = depth - 1
 		}
 		cfg := dbx.Config{DBS: dbs, Alphabet: alpha, Depth: d}
+		if r.Tier != "thorough" {
+			// quick: the later additions to the alphabet are tried from every state of depth <= 2 (not from the deepest level),
+			// and the states they lead to are expanded when reached within two steps
+			cfg.LateDepth = 2
+		}
 		cfg.OnEdge = func(e *dbx.Edge) {
 			model := e.Pre.Transact(e.Txn.Ops)
 			tp := templ(e.Txn.Name)
@@ -160,7 +166,9 @@ func runC04(r *ev.Run) {
 					}
 					res2, err2 := s2.TransactRef(e.Txn.Ops)
 					post2 := s2.State()
-					if (err2 == nil) != (e.RPCErr == nil) || errShape(res2) != errShape(e.Res) || post2.Dump() != e.Post.Dump() {
+					// results compared canonically: the rows of a select come in no particular order
+					canonRes := func(res []ovsdb.OperationResult) string { return s2.CanonResults(sys.OpTables(e.Txn.Ops), res) }
+					if (err2 == nil) != (e.RPCErr == nil) || canonRes(res2) != canonRes(e.Res) || post2.Dump() != e.Post.Dump() {
 						r.Violation("c04.history-dependence."+tp,
 							fmt.Sprintf("[%s] %s: same rows reached by history vs loaded fresh answer differently: %s vs %s", sname, histStr(e), errShape(e.Res), errShape(res2)),
 							mkCase(sname, e, "history dependence", "fresh-load results: "+ev.J(res2)+"\nfresh-load post state:\n"+post2.Dump()))
